@@ -573,6 +573,33 @@ def r6(p, rep):
     c13.r2(p, rep)
 
 
+ASSOCIATIVE_UFUNCS = {"add", "multiply", "logaddexp", "logaddexp2", "logical_and", "logical_or", "logical_xor", "maximum", "minimum", "fmax", "fmin", "bitwise_and", "bitwise_or", "bitwise_xor", "gcd", "lcm", "hypot"}
+NON_ASSOCIATIVE_UFUNCS = {"subtract", "divide", "true_divide", "floor_divide", "power", "float_power", "mod", "remainder", "fmod", "arctan2", "less", "less_equal", "greater", "greater_equal", "equal", "not_equal", "divmod", "copysign", "ldexp", "left_shift", "right_shift", "nextafter"}
+
+
+def r8(p, rep, rid="C09.R8"):
+    rep.rule(rid, "only associative binary primitives are folded over any number of operands; a two-operand operation rejects every other operand count", "T-TAB (reviewed list of associative ufuncs) over the n-ary wrapper's uses", floor=5)
+    n = 0
+    for fw, cls in backends.classical_ops(p).items():
+        ns = backends.local_namespace_aliases(cls)
+        for r in backends.registrations(p, cls):
+            for c in ast.walk(r.value) if isinstance(r.value, ast.AST) else []:
+                if isinstance(c, ast.Call) and isinstance(c.func, ast.Name) and c.func.id == "_associative_binary_to_nary" and c.args:
+                    ch = attr_chain(c.args[0])
+                    if not (ch and ch[0] in ns):
+                        continue
+                    name = ch[-1]
+                    n += 1
+                    if name in NON_ASSOCIATIVE_UFUNCS:
+                        rep.violation(rid, f"{cls.qualname}:{r.name}:nary", r.site, f"`{norm(c)}` folds {name} over any number of operands, but {name} is not associative (and takes exactly two): einx.{r.name} with three tensors silently computes ({name} of {name}) instead of raising the documented 'Expected 2 argument tensors' error, and with one tensor returns it unchanged")
+                    elif name in ASSOCIATIVE_UFUNCS:
+                        rep.ok(rid, f"{cls.qualname}:{r.name}:nary", r.site, f"{name} is associative: folding it pairwise is the n-ary operation")
+                    else:
+                        rep.ok(rid, f"{cls.qualname}:{r.name}:nary", r.site, f"{name}: not in the reviewed lists (not judged)", nontrivial=False)
+    if n == 0:
+        raise AnalysisError("unrecognised idiom: no use of _associative_binary_to_nary in the backend tables")
+
+
 def run(p, rep, tier):
     r1(p, rep)
     r2(p, rep)
@@ -580,6 +607,7 @@ def run(p, rep, tier):
     r4(p, rep)
     r5(p, rep)
     r6(p, rep)
+    r8(p, rep)
     from . import c06 as _c06
 
     _c06.r6(p, rep, parts=("reads-only",))  # non-tensor arguments (sizes, options) pass through the cache-key freezing
